@@ -381,6 +381,19 @@ pub fn check_c15(tier: &str, seed: u64) -> i32 {
         println!("failure: {}", f.msg);
         violations.push(p);
     }
+    // thorough tier supplement: coverage-guided campaign on the journal_damage fuzz target (E4)
+    let mut fuzz_note = "not run (quick tier)".to_string();
+    if tier == "thorough" && violations.is_empty() {
+        fuzz_note = match run_fuzz_campaign(seed, 600) {
+            Ok(Some(artifact)) => {
+                println!("failure: fuzz target journal_damage crashed; input saved at {}", artifact.display());
+                violations.push(artifact);
+                "crash found".to_string()
+            }
+            Ok(None) => "600 s campaign, no crash".to_string(),
+            Err(e) => format!("unavailable: {e}"),
+        };
+    }
     let wall = t0.elapsed().as_secs_f64();
     write_evidence(
         "C15",
@@ -392,7 +405,7 @@ pub fn check_c15(tier: &str, seed: u64) -> i32 {
         &["the journal is the only home of the data (no flush happened; checked per program)", "a panic during open counts as 'failed to open' (the statement demands no altered data, not a particular error path)"],
         wall,
         violations.len(),
-        json!({"corpus_cases_replayed": corpus_n, "known_findings_reproduced": known, "excluded_known": m.stats.get("excluded_known").copied().unwrap_or(0), "exclusions_active": exclude.iter().cloned().collect::<Vec<_>>()}),
+        json!({"corpus_cases_replayed": corpus_n, "known_findings_reproduced": known, "excluded_known": m.stats.get("excluded_known").copied().unwrap_or(0), "exclusions_active": exclude.iter().cloned().collect::<Vec<_>>(), "fuzz": fuzz_note}),
     );
     println!("C15: {} programs, {} evaluations, {} distinct non-trivial, {} violations, {:.1}s", m.stats.get("programs").copied().unwrap_or(0), m.evaluations, m.nt.len(), violations.len(), wall);
     if !violations.is_empty() {
@@ -405,4 +418,37 @@ pub fn check_c15(tier: &str, seed: u64) -> i32 {
         return 2;
     }
     0
+}
+
+/// Builds (if needed) and runs the libFuzzer target for `secs` seconds. Ok(Some(path)) = crashing input.
+pub fn run_fuzz_campaign(seed: u64, secs: u64) -> Result<Option<std::path::PathBuf>, String> {
+    let fuzz_dir = Path::new(VERIF).join("fuzz");
+    if !fuzz_dir.join("Cargo.toml").exists() {
+        return Err("no fuzz crate".into());
+    }
+    let art = fuzz_dir.join("artifacts").join("journal_damage");
+    let _ = std::fs::remove_dir_all(&art);
+    std::fs::create_dir_all(&art).ok();
+    let corpus = scratch_root().join("fuzz-corpus");
+    std::fs::create_dir_all(&corpus).ok();
+    let st = std::process::Command::new("cargo")
+        .current_dir(Path::new(VERIF).join("harness"))
+        .env("CARGO_NET_OFFLINE", "true")
+        .args(["+nightly", "fuzz", "run", "--fuzz-dir", "/verif/fuzz", "-O", "-s", "none", "--target-dir", "/verif/fuzz/target", "journal_damage"])
+        .arg(&corpus)
+        .arg("--")
+        .arg(format!("-max_total_time={secs}"))
+        .arg(format!("-seed={}", seed.max(1)))
+        .args(["-max_len=1024", "-len_control=0", "-timeout=60", "-rss_limit_mb=4096"])
+        .stdout(std::process::Stdio::null())
+        .stderr(std::process::Stdio::null())
+        .status()
+        .map_err(|e| format!("cargo fuzz: {e}"))?;
+    let _ = std::fs::remove_dir_all(&corpus);
+    let crash = std::fs::read_dir(&art).ok().and_then(|rd| rd.flatten().map(|e| e.path()).find(|p| p.file_name().map_or(false, |n| n.to_string_lossy().starts_with("crash-"))));
+    match (st.success(), crash) {
+        (_, Some(p)) => Ok(Some(p)),
+        (true, None) => Ok(None),
+        (false, None) => Err(format!("fuzz run exited with {st} without a crash artifact (build failure, timeout or out of memory)")),
+    }
 }
